@@ -15,6 +15,11 @@ import Dhcp.V4.Values
         builds the option with the typed constructor, `UpdateOption`s it into
         an empty packet and reads it back with the matching accessor
       → `ok raw=<nil|hex> get=<canonical result>` | `panic`
+    v4accdec <Accessor> <def> <packethex>
+        `FromBytes(packet)`, then the accessor on the decoded packet: the model
+        decodes with `dec4` and reads the accessor off `decOptsG` (the option
+        loop with the nil-ness of values)
+      → `ok <canonical result>` | `err` (the packet does not decode)
 
   Canonical results: address `nil|hex`; lists `nil`, `[]` (empty non-nil) or
   comma separated elements; strings as hex; durations in integer ns;
@@ -358,6 +363,17 @@ def stepV4Acc (op : String) (args : List String) : Option String :=
     let r ← toBytes arg
     pure (match r with
       | .ok raw => s!"ok raw={hexOpt raw} get={render (GOpts.empty.update code raw) d}"
+      | .err => "err"
+      | .panic => "panic")
+  | "v4accdec", [name, dflt, pkt] => do
+    let (_, render) ← findAcc name
+    let d ← dflt.toInt?
+    let q ← unhex pkt
+    pure (match dec4 q with
+      | .ok _ =>
+        match decOptsG q with
+        | some g => let r := render g d; if r == "panic" then "panic" else "ok " ++ r
+        | none => "model-mismatch"  -- excluded by C17_decoded_options
       | .err => "err"
       | .panic => "panic")
   | "v4hist", ctor :: present :: h :: dflt :: steps => do
